@@ -22,23 +22,35 @@ def main():
         try:
             res = ex.run(full)
             oks = [r for r in res if r.status == 'ok']
-            if len(res) != 1 or not oks:
-                raise Unsupported('main thread of the harness has %d paths (%s): expected one straight-line path' % (len(res), [r.status for r in res]))
-            st = ex.run_threads(oks[0])
+            if not oks or len(oks) != len(res):
+                raise Unsupported('main thread of the harness has paths %s' % ([r.status for r in res],))
+            finals = []
+            for r in oks:
+                finals += ex.run_threads(r)
         except Unsupported as x:
             run.inconclusive.append('event extraction unsupported: %s' % x)
             run.obligation('event extraction from go/ssa completes', 'unsupported', 'unsat', 0.0)
             run.finish('event extraction failed')
             return
-        evs = [ev for ev in st.events if ev[0] in ('cev', 'note')]
-        nthreads = len(set(ev[1] for ev in evs if ev[0] == 'cev'))
-        run.log('extracted %d events of %d goroutines' % (len(evs), nthreads))
-        run.extra['extracted_events'] = [list(map(str, ev)) for ev in evs]
         ks = [0, 1] if not run.thorough else [0, 1, 2, 3]
         states = transitions = 0
         cex = []
-        for k in ks:
+        outcomes = []
+        for st in finals:
+            evs = [ev for ev in st.events if ev[0] in ('cev', 'note')]
+            if evs not in outcomes:
+                outcomes.append(evs)
+        nthreads = len(set(ev[1] for ev in outcomes[0] if ev[0] == 'cev'))
+        run.log('extracted %d events of %d goroutines (%d distinct stub-outcome combinations)' % (len(outcomes[0]), nthreads, len(outcomes)))
+        run.extra['extracted_events'] = [list(map(str, ev)) for ev in outcomes[0]]
+        for oi, evs in enumerate(outcomes):
+          for k in ks:
             m = Model(evs, k_requests=k)
+            if getattr(m, 'deadlock_feasible', False):
+                # the scenario (e.g. a dropped non-blocking send) must itself be schedulable for the deadlock to be real
+                r, secs, s = m.solve([], 60)
+                if r != 'sat':
+                    continue
             states += len(m.T)
             transitions += len(m.cons)
             for pb in m.problems:
